@@ -273,6 +273,62 @@ def run(tier: str, replay=None) -> int:
                              "reproduce": "replay the listed calls in order on ONE fresh Compiler instance, then the probe call; compare with a fresh instance"})
                 break
             hist.append((0, kind, src, real[0]))
+    # architectural aliases and explicit registers, read and written, through both entry points on ONE instance (first call
+    # through compile_c_stmt, then alternating): an operand object that survives a compilation changes the later ones
+    alias_fam = ["{ HEX_REG_ALIAS_USR = RsV; }", "{ RdV = HEX_REG_ALIAS_USR; }", "{ RdV = HEX_REG_ALIAS_LR + HEX_REG_ALIAS_SP; }", "{ HEX_REG_ALIAS_LR = RsV; }",
+                 "{ RdV = HEX_REG_ALIAS_LR; ReV = HEX_REG_ALIAS_LR; }", "{ R31 = RsV; }", "{ RdV = R31 + P0; }", "{ P0 = RsV; RdV = P0; }", "{ RdV = HEX_REG_ALIAS_USR; }",
+                 "{ HEX_REG_ALIAS_SP = HEX_REG_ALIAS_SP + 8; }", "{ RdV = HEX_REG_ALIAS_PC; }", "{ RdV = HEX_REG_ALIAS_SP; }"]
+    for order, kinds in ((alias_fam, ("cstmt", "insn")), (alias_fam[::-1], ("cstmt", "cstmt")), (alias_fam[::-1], ("insn", "cstmt")), (alias_fam, ("insn", "insn"))):
+        HX.preds_written.clear()
+        c = rc.compiler("READ_STATEMENTS", fresh=True)
+        hist = []
+        for i_, src in enumerate(order + order):
+            kind = kinds[i_ % 2]
+            real = do_call(c, kind, src)
+            HX.preds_written.clear()    # (class-level predicate list: the listed finding, not this stage's subject)
+            ref = fresh_output(kind, src)
+            evals += 1
+            if real[:2] != ref[:2]:
+                viol.append({"what": "output differs from the output of a fresh instance after behaviours naming the same alias / explicit register",
+                             "history": list(hist), "probe": [kind, src], "real": real, "fresh": ref,
+                             "reproduce": "replay the listed calls in order on ONE fresh Compiler instance, then the probe call; compare with a fresh instance"})
+                break
+            hist.append((0, kind, src, real[0]))
+    # bundled instructions by NAME through transform_insn on one instance, the instructions of noped_insns.json among
+    # ordinary ones, repeated and in both orders: each answer is the answer of a fresh instance
+    try:
+        noped = json.load(open(os.path.join(REPO, "Resources/Hexagon/noped_insns.json")))["noped"]
+    except Exception:
+        noped = []
+    cbeh = rc.load_behaviours()
+    ordinary = rng.sample(sorted(n for n, b in cbeh.items() if len(b) == 1 and len(b[0]) < 160 and not n.startswith("V6_") and n not in noped), 4)
+    named = [n for n in noped if n in cbeh]
+    cparsed = rc.parse_cached({n: cbeh[n] for n in named + ordinary})
+
+    def named_call(c, n):
+        try:
+            with rc.quiet():
+                ri = c.transform_insn(n, cparsed[n])
+            return ("ok", [norm(t) for t in ri.rzil], [list(m) for m in ri.meta])
+        except Exception as e:
+            return ("exc", type(getattr(e, "orig_exc", e)).__name__, None)
+
+    seqs = [named + named[::-1] + named, [ordinary[0]] + named + [ordinary[1]] + named[::-1], [x for n in named for x in (n, n, ordinary[2])]]
+    fresh_named = {}
+    for seq_ in seqs:
+        c = rc.compiler("READ_STATEMENTS", fresh=True)
+        hist = []
+        for n in seq_:
+            if n not in fresh_named:
+                fresh_named[n] = named_call(rc.compiler("READ_STATEMENTS", fresh=True), n)
+            real = named_call(c, n)
+            evals += 1
+            if real != fresh_named[n]:
+                viol.append({"what": f"transform_insn({n!r}) after this history differs from the answer of a fresh instance",
+                             "history": list(hist), "probe": ["transform_insn", n], "real": [real[0], str(real[1])[:400], real[2]], "fresh": [fresh_named[n][0], str(fresh_named[n][1])[:400], fresh_named[n][2]],
+                             "reproduce": "on ONE fresh Compiler instance call transform_insn for the listed names in order (parse trees from Parser.parse), then for the probe name; compare with a fresh instance"})
+                break
+            hist.append((0, "transform_insn", n, real[0]))
     # every failing input directly in front of a probe, on one instance per entry point: the compilation after a failure
     # must be the compilation of a fresh instance (code AND attributes)
     for kind in ("cstmt", "insn"):
